@@ -472,6 +472,151 @@ def value_layer(ctx, out):
     return sub.coverage
 
 
+# ------------------------------------------------------------------------------ ItemSpace handles held outside
+
+def run_item_handles(h, flags):
+    """One history over a parametrised space S (cells u, w) whose ItemSpaces are reached from OUTSIDE without evaluating
+    `S[i]` in the caller's formula: through references that hold the ItemSpace objects (T.sp1 = S[1]) and as arguments
+    (by_arg(S[1], k)); `direct` evaluates S[1] itself (control).  flags: {"u": bool, "w": bool}.
+    -> list of query results"""
+    from ..impl import err_kind
+    close_all()
+    res = []
+    try:
+        with quiet():
+            m = mx.new_model("H")
+            P = m.new_space("P")
+            P.b = 3
+            S = m.new_space("S", formula="lambda i: None")
+            S.a, S.P = 5, P
+            S.new_cells("u", formula="def u(k): return 2 * k + a + P.b")
+            S.new_cells("w", formula="def w(k): return u(k) + i * 100")
+            T = m.new_space("T")
+            T.S, T.sp1, T.sp2 = S, S[1], S[2]
+            T.new_cells("by_ref", formula="def by_ref(k): return sp1.u(k) + sp2.w(k)")
+            T.new_cells("by_arg", formula="def by_arg(space, k): return space.u(k) * 2")
+            T.new_cells("via_w", formula="def via_w(k): return sp1.w(k)")
+            T.new_cells("direct", formula="def direct(k): return S[1].u(k) + S(2).w(k)")
+            flags = dict(flags)
+
+            def force():
+                for n in ("u", "w"):
+                    if S.cells[n].is_cached != flags[n]:
+                        S.cells[n].is_cached = flags[n]
+            force()
+            nextra = 0
+            for st in h["steps"]:
+                k = st[0]
+                if k == "query":
+                    one = []
+                    for call in (lambda: (S[1], S[2]) and None, lambda: T.by_ref(1), lambda: T.by_ref(2),
+                                 lambda: T.by_arg(S[1], 1), lambda: T.by_arg(S[2], 2), lambda: T.via_w(1),
+                                 lambda: T.direct(1), lambda: T.direct(2), lambda: S[1].w(2)):
+                        try:
+                            one.append(call())
+                        except BaseException as e:      # noqa: BLE001
+                            one.append("err " + err_kind(mx.get_error() if type(e).__name__ == "FormulaError" else e))
+                    res.append(tuple(one[1:]))
+                elif k == "formula_u":
+                    S.u.formula = "def u(k): return %d * k + a + P.b" % st[1]
+                elif k == "formula_w":
+                    S.w.formula = "def w(k): return u(k) + i * 100 + %d" % st[1]
+                elif k == "ref_a":
+                    S.a = st[1]
+                elif k == "ref_b":
+                    P.b = st[1]
+                elif k == "flip":
+                    if not h.get("base_run"):
+                        flags[st[1]] = not flags[st[1]]
+                elif k == "clear_items":
+                    S.clear_items()
+                elif k == "newcells":
+                    nextra += 1
+                    S.new_cells("extra%d" % nextra, formula="lambda: 0")
+                elif k == "delcells" and nextra:
+                    del S.cells["extra%d" % nextra]
+                    nextra -= 1
+                elif k == "rebind":
+                    T.sp1 = S[1]
+                force()
+    finally:
+        close_all()
+    return res
+
+
+def item_handle_spec(h):
+    """the query results by the harness' own reading of the definitions in force at each query"""
+    mult, add, a, b = 2, 0, 5, 3
+    out = []
+
+    def u(k):
+        return mult * k + a + b
+
+    def w(i, k):
+        return u(k) + i * 100 + add
+    for st in h["steps"]:
+        if st[0] == "query":
+            out.append((u(1) + w(2, 1), u(2) + w(2, 2), u(1) * 2, u(2) * 2, w(1, 1), u(1) + w(2, 1), u(2) + w(2, 2), w(1, 2)))
+        elif st[0] == "formula_u":
+            mult = st[1]
+        elif st[0] == "formula_w":
+            add = st[1]
+        elif st[0] == "ref_a":
+            a = st[1]
+        elif st[0] == "ref_b":
+            b = st[1]
+    return out
+
+
+ITEM_EDITS = ["formula_u", "formula_u", "formula_w", "ref_a", "ref_b", "flip", "clear_items", "newcells", "delcells", "rebind"]
+
+
+def gen_item_handles(rng):
+    steps = [["query"]]
+    for _ in range(rng.randrange(2, 7)):
+        for _ in range(rng.randrange(1, 3)):
+            k = rng.choice(ITEM_EDITS)
+            steps.append([k, rng.randrange(3, 9)] if k in ("formula_u", "formula_w", "ref_a", "ref_b") else
+                         [k, rng.choice(["u", "w"])] if k == "flip" else [k])
+        steps.append(["query"])
+    return {"scenario": "item-handles", "steps": steps}
+
+
+def check_item_handles(h, out, stats):
+    base = run_item_handles(dict(h, base_run=True), {"u": True, "w": True})
+    want = item_handle_spec(h)
+    stats["item_handle_histories"] += 1
+    if base != want:
+        i = next((i for i, (x, y) in enumerate(zip(base, want)) if x != y), 0)
+        out.fail("ItemSpaces reached through references / arguments, all cells cached: query %d gives %s, the definitions in "
+                 "force give %s" % (i, base[i], want[i]), dict(h, flags={"u": True, "w": True}))
+        return False
+    for fu, fw in ((False, True), (True, False), (False, False)):
+        got = run_item_handles(h, {"u": fu, "w": fw})
+        stats["item_handle_replays"] += 1
+        if got != base:
+            i = next((i for i, (x, y) in enumerate(zip(got, base)) if x != y), 0)
+            out.fail("results differ between the cached-flag assignment u=%s w=%s and all-cached (ItemSpaces reached through "
+                     "references / arguments): query %d gives %s vs %s" % (fu, fw, i, got[i], base[i]),
+                     dict(h, flags={"u": fu, "w": fw}))
+            return False
+    return True
+
+
+def item_handles(ctx, out, stats):
+    hists = [{"scenario": "item-handles", "steps": [["query"], [k, 7], ["query"], [k, 4], ["query"]]}
+             for k in ("formula_u", "formula_w", "ref_a", "ref_b")]
+    hists += [{"scenario": "item-handles", "steps": [["query"], [k], ["query"], ["formula_u", 6], ["query"]]}
+              for k in ("clear_items", "newcells", "rebind")]
+    hists += [gen_item_handles(ctx.rng("item-handles", i)) for i in range(ctx.n(25, 500))]
+    bad = 0
+    for h in hists:
+        if not check_item_handles(h, out, stats):
+            bad += 1
+            if bad >= 3:
+                break
+
+
 def run(ctx, out):
     stats = collections.Counter()
     vcov = value_layer(ctx, out)
@@ -499,6 +644,7 @@ def run(ctx, out):
             break
     enumerate_single_edits(ctx, out, stats, allassign)
     unhashable(out, stats)
+    item_handles(ctx, out, stats)
     out.coverage.update({"evaluations": len(hists) * 5, "programs": len(hists), "distinct_nontrivial": nontrivial,
                          "rule": RULE, "samples": samples, "input_distribution": dict(stats),
                          "exhaustive": ctx.tier == "thorough", "traces_validated_against_impl": len(hists),
@@ -507,6 +653,9 @@ def run(ctx, out):
 
 def replay(ctx, payload, out):
     h = payload.get("history") or {}
+    if h.get("scenario") == "item-handles":
+        check_item_handles({k: v for k, v in h.items() if k != "flags"}, out, collections.Counter())
+        return
     if h.get("scenario") == "unhashable":
         unhashable(out, collections.Counter())
         return
